@@ -152,7 +152,7 @@ def run_case(desc):
         for _ in range(rng.randint(0, 2)):
             dl = [i for i in S.reg if S.rp.role[i] in ("stored", "dsrc")]
             if dl:
-                S.stores[rng.choice(dl)].delete()
+                S.delete(rng.choice(dl))
         out_ids = history.choose_out(rng, S)
         fresh = history.choose_fresh(rng, S)
         exp = S.expect(out_ids, fresh)
